@@ -500,8 +500,7 @@ BdatStallRefused ==
   /\ InCmdMode /\ "stall" \in Alphabet
   /\ st.helo /\ (~st.from \/ st.nrcpt = 0) /\ st.bdat = "none"
   /\ st' = ClosedSt(st)
-  /\ Emit(CmdB("BDATSTALL", "refused", 6, FALSE, ""), <<R(502, <<5, 5, 1>>)>>,
-          IF st.sess # 0 THEN <<CB("Reset", st.sess), CB("Logout", st.sess)>> ELSE <<>>)
+  /\ Emit(CmdB("BDATSTALL", "refused", 6, FALSE, ""), <<R(502, <<5, 5, 1>>)>>, CloseCbs(st))
 
 \* whatever was pipelined behind the step that closed the connection is
 \* never executed (properties C08, C19)
